@@ -249,3 +249,19 @@ Example C17_licm_number_example :
   | None => False
   end.
 Proof. vm_compute. split; reflexivity. Qed.
+
+(* licm, value of every rewritten assignment, for all products and tables: if the temporary holds the product
+   of the hoisted factors the rewritten product equals the original one; otherwise the statement is unchanged *)
+Theorem C17_licm_rewritten_assignment_keeps_its_value :
+  forall temps inner outer (M : Type) (mul : M -> M -> M) (one : M),
+    (forall a b, mul a b = mul b a) -> (forall a b c, mul (mul a b) c = mul a (mul b c)) ->
+    (forall a, mul one a = a) ->
+    forall (den : expr -> M) tab seen lv args s,
+      rewrite_assign temps inner outer tab seen (lv, args) = Some s ->
+      (forall c t keep hoist, lookup lv (occurrence lv seen) tab = Some c -> temp_id temps c = Some t ->
+          split_args inner args = Some (keep, hoist) ->
+          den (EAcc t [ESym outer]) = prod M mul one (map den hoist)) ->
+      exists args', s = SAssignAdd lv (EProd args')
+                    /\ prod M mul one (map den args') = prod M mul one (map den args).
+Proof. intros. eapply rewrite_assign_value; eauto. Qed.
+Print Assumptions C17_licm_rewritten_assignment_keeps_its_value.
